@@ -4,10 +4,11 @@ import glob, json, os
 V = os.path.dirname(os.path.dirname(os.path.abspath(__file__)))
 props = [json.loads(l) for l in open(os.path.join(V, "properties.jsonl"))]
 checks, na = [], []
+ready = set(json.load(open(os.path.join(V, "props_meta", "_ready.json"))))
 for p in props:
     pid = p["id"]
     mp = os.path.join(V, "props_meta", pid + ".json")
-    if not os.path.exists(mp):
+    if not os.path.exists(mp) or pid not in ready:
         na.append({"property_id": pid, "reason": "check not built yet in this round (planned: DESIGN.md section 6 %s); not claimed until its proof and correspondence legs run" % pid})
         continue
     m = json.load(open(mp))
